@@ -475,6 +475,11 @@ func genPrompt(r *vc.Rand, index int) *Scenario {
 		} else if i > 0 && r.Chance(1, 3) {
 			j.Deps = []int{r.Intn(i)}
 		}
+		if i != held && r.Chance(1, 4) {
+			// a genuine failure, usually processed before the cancellation: the
+			// call must still return at once when the context ends
+			j.Beh = BehErr
+		}
 		sc.Jobs = append(sc.Jobs, j)
 	}
 	sc.GateOpen = "return"
